@@ -39,6 +39,7 @@ type LimitCfg struct {
 	VDec         string `json:"v_dec,omitempty"`
 	Windowed     bool   `json:"windowed,omitempty"`
 	Traced       bool   `json:"traced,omitempty"`
+	TraceDebug   bool   `json:"trace_debug,omitempty"` // traced: the logger handed to the traced limit has debug output enabled (it discards the text)
 	WinSize      int32  `json:"win_size,omitempty"`
 	WinMin       int64  `json:"win_min,omitempty"`
 	WinMax       int64  `json:"win_max,omitempty"`
@@ -59,6 +60,9 @@ type Sample struct {
 func (s Sample) inflight(est int) int {
 	if est < 0 {
 		est = 0
+	}
+	if est > math.MaxInt32 {
+		est = math.MaxInt32 // the in-flight domain ends at 2^31-1, whatever the estimate
 	}
 	switch s.Rel {
 	case "half":
@@ -226,10 +230,20 @@ func buildLimit(c LimitCfg, reg core.MetricRegistry) built {
 		outer = w
 	}
 	if c.Traced {
-		outer = limit.NewTracedLimit(outer, limit.NoopLimitLogger{})
+		if c.TraceDebug {
+			outer = limit.NewTracedLimit(outer, debugDiscardLogger{})
+		} else {
+			outer = limit.NewTracedLimit(outer, limit.NoopLimitLogger{})
+		}
 	}
 	return built{Outer: outer, Inner: inner, Tap: tap}
 }
+
+// debugDiscardLogger: a limit.Logger with debug output enabled; the formatted text is built and dropped.
+type debugDiscardLogger struct{}
+
+func (debugDiscardLogger) Debugf(msg string, params ...interface{}) { _ = fmt.Sprintf(msg, params...) }
+func (debugDiscardLogger) IsDebugEnabled() bool                     { return true }
 
 func (b built) noLoad() (int64, bool) {
 	if r, ok := b.Inner.(rttNoLoader); ok {
@@ -331,6 +345,7 @@ func genLimitCfg(t *rapid.T, algos []string, allowWrappers bool) LimitCfg {
 	if allowWrappers {
 		c.Windowed = rapid.IntRange(0, 3).Draw(t, "windowed") == 0
 		c.Traced = rapid.IntRange(0, 3).Draw(t, "traced") == 0
+		c.TraceDebug = c.Traced && rapid.Bool().Draw(t, "traceDebug")
 		if c.Windowed {
 			c.WinSize = int32(rapid.IntRange(10, 12).Draw(t, "wsize"))
 			c.WinMin = int64(rapid.IntRange(100, 300).Draw(t, "wmin")) * 1e6
